@@ -26,7 +26,7 @@ def cfg(invariants, spec="Spec", constants=None, extra=""):
 
 def validate(ctx: Ctx, module: str, rows: list, *, invariants, files: dict | None = None,
              name: str | None = None, tag=lambda r: "", describe=lambda r: json.dumps(r)[:400],
-             expect_rows_ok="RowsOK", timeout=3600, env=None, java_opts="-Xss64m -Xmx24g",
+             expect_rows_ok="RowsOK", timeout=14400, env=None, java_opts="-Xss64m -Xmx24g",
              count_traces=True, workers=None, constants=None,
              result_keys=("r",), spec="Spec") -> bool:
     """Validate `rows` with spec module `module` (state variable i = row index).
